@@ -39,7 +39,9 @@ func (fc *FCtx) newIterator(st *State, store *Val, prefix Val, reverse bool, e *
 	p := fc.toBz(prefix)
 	n := fmt.Sprintf("(it_len %d)", id)
 	j, k := fmt.Sprintf("itj%d", id), fmt.Sprintf("itk%d", id)
-	st.assume(fmt.Sprintf("(>= %s 0)", n))
+	st.assume(fmt.Sprintf("(and (>= %s 0) (<= %s 9223372036854775807))", n, n))
+	fc.U.Fun("pcount", []*Sort{fc.U.StoreSort(), fc.U.BzSort()}, SInt)
+	st.assume(fmt.Sprintf("(= %s (pcount %s %s))", n, s.T, p))
 	st.assume(fmt.Sprintf("(forall ((%s Int)) (! (=> (and (<= 0 %s) (< %s %s)) (and (= (select %s (it_key %d %s)) (it_val %d %s)) (not (= (it_val %d %s) bz_nil)) (hasprefix (it_key %d %s) %s) (= (it_idx %d (it_key %d %s)) %s))) :pattern ((it_key %d %s)) :pattern ((it_val %d %s))))",
 		j, j, j, n, s.T, id, j, id, j, id, j, id, j, p, id, id, j, j, id, j, id, j))
 	st.assume(fmt.Sprintf("(forall ((%s Bz)) (! (=> (and (not (= (select %s %s) bz_nil)) (hasprefix %s %s)) (and (<= 0 (it_idx %d %s)) (< (it_idx %d %s) %s) (= (it_key %d (it_idx %d %s)) %s))) :pattern ((it_idx %d %s)) :pattern ((hasprefix %s %s))))",
